@@ -27,6 +27,9 @@ CHECK_DEADLOCK FALSE
 def generate(run, tier, tag="notation", **override):
     """module sets from TLC's simulator (seeded); returns the list of distinct node tables"""
     p = dict(SIM[tier], **override)
+    if tier == "quick":
+        # one simulator thread: the same VERIF_SEED then draws the same module sets in every run
+        p["num"], p["workers"] = p["num"] * p["workers"], 1
     res = core.tlc("mc/MC_Notation.tla", sim_cfg(run, p), workers=p["workers"], simulate=f"num={p['num']}", depth=120,
                    tlcseed=core.seed(), timeout=1800, xmx="8g")
     run.add_tlc(res, f"Notation simulation num={p['num']} x {p['workers']} workers (states generated, simulation mode)")
